@@ -147,6 +147,10 @@ class Wsdl11(XmlSchema):
     def build_interface_document(self, url):
         """Build the wsdl for the application."""
 
+        # the nodes created by a previous build belong to the previous tree.
+        self.port_type_dict = {}
+        self.service_elt_dict = {}
+
         self.build_schema_nodes()
 
         self.url = REGEX_WSDL.sub('', url)
